@@ -1520,8 +1520,10 @@ pub fn scen_mcast(idx: u64, rng: &mut Rng, ctx: &Ctx, focus: Focus) -> CaseOut {
     let (mtu, cls) = pick_mtu(rng, medium, any_v6);
     let caps = caps_single(rng);
     let prefill = *rng.pick(&[0xA5u8, 0xff, 0x00, 0x5a, 0x01]);
-    // SLAAC needs a link-local address (the router solicitation is sent from it)
-    let slaac = (plan == 3 || (plan == 1 && rng.bool())) && medium != Medium::Ieee802154 && rng.chance(2, 3);
+    // SLAAC: mostly with a link-local address (the router solicitation is sent from it); one run in
+    // four of the other address plans switches it on without one (RFC 4861 4.1: the solicitation then
+    // comes from the unspecified address)
+    let slaac = (plan == 3 || (plan == 1 && rng.bool()) || (plan != 1 && plan != 3 && rng.chance(1, 4))) && medium != Medium::Ieee802154 && rng.chance(2, 3);
     let addrs = if slaac && plan == 1 { vec![cidr(&Addr::V6(ll_v6(medium, 1)), 64)] } else { addrs };
     let mut n = Node::new("M", medium, mtu, cls, caps, hw_for(medium, 1), &addrs, rng.next_u64(), prefill, slaac, focus);
     n.verbose = ctx.verbose;
